@@ -48,7 +48,17 @@ func (dw *DeltaSelector) ObjectsToPack(
 	hashes []plumbing.Hash,
 	packWindow uint,
 ) ([]*ObjectToPack, error) {
-	otp, err := dw.objectsToPack(hashes, packWindow)
+	// A pack holds each object once, however often it was requested.
+	unique := make([]plumbing.Hash, 0, len(hashes))
+	seen := make(map[plumbing.Hash]struct{}, len(hashes))
+	for _, h := range hashes {
+		if _, ok := seen[h]; !ok {
+			seen[h] = struct{}{}
+			unique = append(unique, h)
+		}
+	}
+
+	otp, err := dw.objectsToPack(unique, packWindow)
 	if err != nil {
 		return nil, err
 	}
